@@ -243,6 +243,11 @@ def shards(tier, seed):
             for first in range(len(VOCAB)):
                 out.append(("exhaustive_sequences",
                             dict(d=d, first=first, length=length)))
+    if tier == "quick":
+        # the permissive loader's repair paths need five tokens ('a = a ; =')
+        for first in range(len(VOCAB)):
+            out.append(("exhaustive_sequences",
+                        dict(d="default", first=first, length=5)))
     return out
 
 
